@@ -13,12 +13,15 @@
 (*   Explains(rec)    the sequence of named deviation switches under which *)
 (*                    the Level-1 model reproduces the observation exactly *)
 (*   NonTrivial(rec)  the per-engine non-triviality rule for the evidence  *)
+(*   Unjudged(rec)    the observation lies where the specification leaves  *)
+(*                    the outcome open or outside the modelled domain: it  *)
+(*                    is accepted without being decided, and counted       *)
 (* Environment: OBS (path prefix of chunk files OBS.1 .. OBS.K), OUT (path *)
 (* prefix of verdict files), CHUNKS (K).                                   *)
 (***************************************************************************)
 EXTENDS Integers, Sequences, FiniteSets, TLC, Json, IOUtils
 
-CONSTANTS Allowed(_), Expected(_), Explains(_), NonTrivial(_)
+CONSTANTS Allowed(_), Expected(_), Explains(_), NonTrivial(_), Unjudged(_)
 VARIABLES chunk, phase
 
 K == CHOOSE n \in 1..512 : ToString(n) = IOEnv.CHUNKS
@@ -30,7 +33,7 @@ Verdicts(recs) ==
       bad  == SelectSeq(idx, LAMBDA i : ~Allowed(recs[i]))
       rej  == [j \in 1..Len(bad) |->
                  [i |-> bad[j], exp |-> Expected(recs[bad[j]]), expl |-> Explains(recs[bad[j]])]]
-      stat == [stats |-> [n |-> Len(recs), nontrivial |-> CountIf(recs, NonTrivial)]]
+      stat == [stats |-> [n |-> Len(recs), nontrivial |-> CountIf(recs, NonTrivial), unjudged |-> CountIf(recs, Unjudged)]]
   IN <<stat>> \o rej
 
 Init == chunk = 0 /\ phase = 0
